@@ -34,9 +34,15 @@ def build(m: Dict[str, Any], note_as_object: bool = False, **db_kwargs):
     from pydbml.classes import (Table, Column, Index, Reference, Enum, EnumItem, TableGroup, Project, Expression, Note)
     from pydbml._classes.sticky_note import StickyNote
 
+    shared: Dict[str, Any] = {}
+
     def note(text):
         if not text:
             return None
+        if note_as_object == 'shared':
+            # the SAME Note object for every element that carries this text (cloning a table, reusing a constant): each
+            # element must end up with a note of its own
+            return shared.setdefault(text, Note(dec(text)))
         return Note(dec(text)) if note_as_object else dec(text)
     db = Database(allow_properties=m['allowprops'], **db_kwargs)
     enums = []
